@@ -1,5 +1,259 @@
-From Tetl Require Import Lib.Base C08.Model C08.Spec.
+(* C08 — string_view searches and comparisons equal std::string_view for all arguments.
+   Property theorems only: each is closed by [exact] of a lemma proved in Proofs*.v / SpecFacts.v,
+   followed by Print Assumptions.
+
+   Reading guide.  [X_m] (Model.v) is the executable mirror of basic_string_view::X on views
+   (buffer, offset, length); [X_s] (Spec.v) is std::basic_string_view::X on character lists.
+   [view_ok v]: the view lies inside its allocation and vlen v < 2^63.  [pos_ok p]: 0 <= p < 2^64
+   (any size_t value, incl. npos and positions beyond size()).  [vchars v]: the characters spanned.
+   A result [Ok r] excludes UB (every character access of the model is a checked read that is
+   UB OutOfBounds outside its own view), contract failures and fuel exhaustion.
+   [res_opt] / [view_res]: the model is [Contract] exactly when the spec has no value
+   (pos > size(): std throws out_of_range / documents a precondition). *)
+From Tetl Require Import Lib.Base C08.Model C08.Spec C08.Core C08.ProofsFind C08.ProofsCmp
+  C08.ProofsRfind C08.ProofsPtr C08.ProofsSafe C08.SpecFacts.
 Local Open Scope Z_scope.
-Theorem C08_placeholder : find_m (mkview [] 0 0) (mkview [] 0 0) 0 = Ok (find_s [] [] 0).
-Proof. reflexivity. Qed.
-Print Assumptions C08_placeholder.
+
+(** * The six search families: view, Char, Char const* and (Char const*, pos, count) overloads,
+      for all views, needles (incl. empty, longer than the haystack) and positions.
+      [cstr_ok a]: the array holds a zero; the needle is the characters before it. *)
+(* find + contains *)
+Theorem C08_find :
+  ((* find *) forall h n pos, view_ok h -> view_ok n -> pos_ok pos ->
+  find_m h n pos = Ok (find_s (vchars h) (vchars n) pos)) /\
+  ((* find_c *) forall h c pos, view_ok h -> pos_ok pos ->
+  find_c_m h c pos = Ok (find_s (vchars h) [c] pos)) /\
+  ((* find_p *) forall h a pos, view_ok h -> cstr_ok a -> pos_ok pos ->
+  find_p_m h a pos = Ok (find_s (vchars h) (cstr_s (vchars a)) pos)) /\
+  ((* find_pc *) forall h a pos count, view_ok h -> view_ok a -> pos_ok pos -> 0 <= count <= vlen a ->
+  find_pc_m h a pos count = Ok (find_s (vchars h) (sub (vchars a) 0 count) pos)) /\
+  ((* contains *) forall h n, view_ok h -> view_ok n ->
+  contains_m h n = Ok (contains_s (vchars h) (vchars n))) /\
+  ((* contains_c *) forall h c, view_ok h -> contains_c_m h c = Ok (contains_s (vchars h) [c])) /\
+  ((* contains_p *) forall h a, view_ok h -> cstr_ok a ->
+  contains_p_m h a = Ok (contains_s (vchars h) (cstr_s (vchars a)))).
+Proof. exact (conj find_correct (conj find_c_correct (conj find_p_correct (conj find_pc_correct (conj contains_correct (conj contains_c_correct contains_p_correct)))))). Qed.
+Print Assumptions C08_find.
+
+(* rfind *)
+Theorem C08_rfind :
+  ((* rfind *) forall h n pos, view_ok h -> view_ok n -> pos_ok pos ->
+  rfind_m h n pos = Ok (rfind_s (vchars h) (vchars n) pos)) /\
+  ((* rfind_c *) forall h c pos, view_ok h -> pos_ok pos ->
+  rfind_c_m h c pos = Ok (rfind_s (vchars h) [c] pos)) /\
+  ((* rfind_p *) forall h a pos, view_ok h -> cstr_ok a -> pos_ok pos ->
+  rfind_p_m h a pos = Ok (rfind_s (vchars h) (cstr_s (vchars a)) pos)) /\
+  ((* rfind_pc *) forall h a pos count, view_ok h -> view_ok a -> pos_ok pos -> 0 <= count <= vlen a ->
+  rfind_pc_m h a pos count = Ok (rfind_s (vchars h) (sub (vchars a) 0 count) pos)).
+Proof. exact (conj rfind_correct (conj rfind_c_correct (conj rfind_p_correct rfind_pc_correct))). Qed.
+Print Assumptions C08_rfind.
+
+(* find_first_of *)
+Theorem C08_find_first_of :
+  ((* find_first_of *) forall h n pos, view_ok h -> view_ok n -> pos_ok pos ->
+  find_first_of_m h n pos = Ok (find_first_of_s (vchars h) (vchars n) pos)) /\
+  ((* find_first_of_c *) forall h c pos, view_ok h -> pos_ok pos ->
+  find_first_of_c_m h c pos = Ok (find_first_of_s (vchars h) [c] pos)) /\
+  ((* find_first_of_p *) forall h a pos, view_ok h -> cstr_ok a -> pos_ok pos ->
+  find_first_of_p_m h a pos = Ok (find_first_of_s (vchars h) (cstr_s (vchars a)) pos)) /\
+  ((* find_first_of_pc *) forall h a pos count, view_ok h -> view_ok a -> pos_ok pos -> 0 <= count <= vlen a ->
+  find_first_of_pc_m h a pos count = Ok (find_first_of_s (vchars h) (sub (vchars a) 0 count) pos)).
+Proof. exact (conj find_first_of_correct (conj find_first_of_c_correct (conj find_first_of_p_correct find_first_of_pc_correct))). Qed.
+Print Assumptions C08_find_first_of.
+
+(* find_first_not_of *)
+Theorem C08_find_first_not_of :
+  ((* find_first_not_of *) forall h n pos, view_ok h -> view_ok n -> pos_ok pos ->
+  find_first_not_of_m h n pos = Ok (find_first_not_of_s (vchars h) (vchars n) pos)) /\
+  ((* find_first_not_of_c *) forall h c pos, view_ok h -> pos_ok pos ->
+  find_first_not_of_c_m h c pos = Ok (find_first_not_of_s (vchars h) [c] pos)) /\
+  ((* find_first_not_of_p *) forall h a pos, view_ok h -> cstr_ok a -> pos_ok pos ->
+  find_first_not_of_p_m h a pos = Ok (find_first_not_of_s (vchars h) (cstr_s (vchars a)) pos)) /\
+  ((* find_first_not_of_pc *) forall h a pos count, view_ok h -> view_ok a -> pos_ok pos -> 0 <= count <= vlen a ->
+  find_first_not_of_pc_m h a pos count = Ok (find_first_not_of_s (vchars h) (sub (vchars a) 0 count) pos)).
+Proof. exact (conj find_first_not_of_correct (conj find_first_not_of_c_correct (conj find_first_not_of_p_correct find_first_not_of_pc_correct))). Qed.
+Print Assumptions C08_find_first_not_of.
+
+(* find_last_of *)
+Theorem C08_find_last_of :
+  ((* find_last_of *) forall h n pos, view_ok h -> view_ok n -> pos_ok pos ->
+  find_last_of_m h n pos = Ok (find_last_of_s (vchars h) (vchars n) pos)) /\
+  ((* find_last_of_c *) forall h c pos, view_ok h -> pos_ok pos ->
+  find_last_of_c_m h c pos = Ok (find_last_of_s (vchars h) [c] pos)) /\
+  ((* find_last_of_p *) forall h a pos, view_ok h -> cstr_ok a -> pos_ok pos ->
+  find_last_of_p_m h a pos = Ok (find_last_of_s (vchars h) (cstr_s (vchars a)) pos)) /\
+  ((* find_last_of_pc *) forall h a pos count, view_ok h -> view_ok a -> pos_ok pos -> 0 <= count <= vlen a ->
+  find_last_of_pc_m h a pos count = Ok (find_last_of_s (vchars h) (sub (vchars a) 0 count) pos)).
+Proof. exact (conj find_last_of_correct (conj find_last_of_c_correct (conj find_last_of_p_correct find_last_of_pc_correct))). Qed.
+Print Assumptions C08_find_last_of.
+
+(* find_last_not_of *)
+Theorem C08_find_last_not_of :
+  ((* find_last_not_of *) forall h n pos, view_ok h -> view_ok n -> pos_ok pos ->
+  find_last_not_of_m h n pos = Ok (find_last_not_of_s (vchars h) (vchars n) pos)) /\
+  ((* find_last_not_of_c *) forall h c pos, view_ok h -> pos_ok pos ->
+  find_last_not_of_c_m h c pos = Ok (find_last_not_of_s (vchars h) [c] pos)) /\
+  ((* find_last_not_of_p *) forall h a pos, view_ok h -> cstr_ok a -> pos_ok pos ->
+  find_last_not_of_p_m h a pos = Ok (find_last_not_of_s (vchars h) (cstr_s (vchars a)) pos)) /\
+  ((* find_last_not_of_pc *) forall h a pos count, view_ok h -> view_ok a -> pos_ok pos -> 0 <= count <= vlen a ->
+  find_last_not_of_pc_m h a pos count = Ok (find_last_not_of_s (vchars h) (sub (vchars a) 0 count) pos)).
+Proof. exact (conj find_last_not_of_correct (conj find_last_not_of_c_correct (conj find_last_not_of_p_correct find_last_not_of_pc_correct))). Qed.
+Print Assumptions C08_find_last_not_of.
+
+(** * construction from a C string pointer: Traits::length never leaves the array and yields the C string *)
+(* cstr *)
+Theorem C08_cstr_view :
+  ((* cstr_view *) forall a, cstr_ok a ->
+  exists n, cstr_view a = Ok n /\ view_ok n /\ vchars n = cstr_s (vchars a)).
+Proof. exact cstr_view_spec. Qed.
+Print Assumptions C08_cstr_view.
+
+(** * compare (all six overloads) for every character type, and the six relational operators *)
+(* compare *)
+Theorem C08_compare :
+  ((* compare *) forall ck a b, view_ok a -> view_ok b ->
+  compare_m ck a b = Ok (compare_s (ct_of ck) (vchars a) (vchars b))) /\
+  ((* compare3 *) forall ck a pos1 count1 b, view_ok a -> view_ok b -> pos_ok pos1 -> pos_ok count1 ->
+  res_opt (compare3_m ck a pos1 count1 b) (compare3_s (ct_of ck) (vchars a) pos1 count1 (vchars b))) /\
+  ((* compare5 *) forall ck a pos1 count1 b pos2 count2,
+  view_ok a -> view_ok b -> pos_ok pos1 -> pos_ok count1 -> pos_ok pos2 -> pos_ok count2 ->
+  res_opt (compare5_m ck a pos1 count1 b pos2 count2)
+          (compare5_s (ct_of ck) (vchars a) pos1 count1 (vchars b) pos2 count2)) /\
+  ((* compare_p *) forall ck h a, view_ok h -> cstr_ok a ->
+  compare_p_m ck h a = Ok (compare_s (ct_of ck) (vchars h) (cstr_s (vchars a)))) /\
+  ((* compare3_p *) forall ck h pos1 count1 a, view_ok h -> cstr_ok a -> pos_ok pos1 -> pos_ok count1 ->
+  res_opt (compare3_p_m ck h pos1 count1 a) (compare3_s (ct_of ck) (vchars h) pos1 count1 (cstr_s (vchars a)))) /\
+  ((* compare4_p *) forall ck h pos1 count1 a count2,
+  view_ok h -> view_ok a -> pos_ok pos1 -> pos_ok count1 -> 0 <= count2 <= vlen a ->
+  res_opt (compare4_p_m ck h pos1 count1 a count2)
+          (compare3_s (ct_of ck) (vchars h) pos1 count1 (sub (vchars a) 0 count2))).
+Proof. exact (conj compare_correct (conj compare3_correct (conj compare5_correct (conj compare_p_correct (conj compare3_p_correct compare4_p_correct))))). Qed.
+Print Assumptions C08_compare.
+
+(* ==, !=, <, <=, >, >= *)
+Theorem C08_relational :
+  ((* relational *) forall ck a b, view_ok a -> view_ok b ->
+  exists e ne l le g ge,
+    op_eq_m ck a b = Ok e /\ op_ne_m ck a b = Ok ne /\ op_lt_m ck a b = Ok l /\
+    op_le_m ck a b = Ok le /\ op_gt_m ck a b = Ok g /\ op_ge_m ck a b = Ok ge /\
+    rel_s (ct_of ck) (vchars a) (vchars b) = [e; ne; l; le; g; ge]).
+Proof. exact rel_correct. Qed.
+Print Assumptions C08_relational.
+
+(** * starts_with / ends_with; [chars_ok]: the characters are values of the character type *)
+(* starts_with, ends_with *)
+Theorem C08_starts_ends_with :
+  ((* starts_with *) forall ck h n, view_ok h -> view_ok n ->
+  chars_ok (ct_of ck) (vchars h) -> chars_ok (ct_of ck) (vchars n) ->
+  starts_with_m ck h n = Ok (starts_with_s (vchars h) (vchars n))) /\
+  ((* starts_with_c *) forall h c, view_ok h -> starts_with_c_m h c = Ok (starts_with_s (vchars h) [c])) /\
+  ((* starts_with_p *) forall ck h a, view_ok h -> cstr_ok a ->
+  chars_ok (ct_of ck) (vchars h) -> chars_ok (ct_of ck) (vchars a) ->
+  starts_with_p_m ck h a = Ok (starts_with_s (vchars h) (cstr_s (vchars a)))) /\
+  ((* ends_with *) forall ck h n, view_ok h -> view_ok n ->
+  chars_ok (ct_of ck) (vchars h) -> chars_ok (ct_of ck) (vchars n) ->
+  ends_with_m ck h n = Ok (ends_with_s (vchars h) (vchars n))) /\
+  ((* ends_with_c *) forall h c, view_ok h -> ends_with_c_m h c = Ok (ends_with_s (vchars h) [c])) /\
+  ((* ends_with_p *) forall ck h a, view_ok h -> cstr_ok a ->
+  chars_ok (ct_of ck) (vchars h) -> chars_ok (ct_of ck) (vchars a) ->
+  ends_with_p_m ck h a = Ok (ends_with_s (vchars h) (cstr_s (vchars a)))).
+Proof. exact (conj starts_with_correct (conj starts_with_c_correct (conj starts_with_p_correct (conj ends_with_correct (conj ends_with_c_correct ends_with_p_correct))))). Qed.
+Print Assumptions C08_starts_ends_with.
+
+(** * substr, copy, remove_prefix, remove_suffix: any pos / count; Contract iff pos (n) > size() *)
+(* substr, copy, remove_prefix, remove_suffix *)
+Theorem C08_substr_copy_remove :
+  ((* substr *) forall v pos count, view_ok v -> pos_ok pos -> pos_ok count ->
+  view_res (substr_m v pos count) (substr_s (vchars v) pos count) (voff v + pos)) /\
+  ((* copy *) forall v count pos, view_ok v -> pos_ok count -> pos_ok pos ->
+  res_opt (copy_m v count pos) (copy_s (vchars v) count pos)) /\
+  ((* remove_prefix *) forall v n, view_ok v -> pos_ok n ->
+  view_res (remove_prefix_m v n) (remove_prefix_s (vchars v) n) (voff v + n)) /\
+  ((* remove_suffix *) forall v n, view_ok v -> pos_ok n ->
+  view_res (remove_suffix_m v n) (remove_suffix_s (vchars v) n) (voff v)).
+Proof. exact (conj substr_correct (conj copy_correct (conj remove_prefix_correct remove_suffix_correct))). Qed.
+Print Assumptions C08_substr_copy_remove.
+
+(** * Only characters inside the views involved are read: the model's only access path fails
+      outside the view, no operation ever takes that path (nor runs out of fuel), and the results
+      do not depend on what the allocations hold outside the views *)
+(* reads *)
+Theorem C08_reads_inside :
+  ((* read_is_checked *) forall v i, ~ (0 <= i < vlen v) -> rd v i = UB OutOfBounds) /\
+  ((* reads_inside_searches *) forall h n pos, view_ok h -> view_ok n -> pos_ok pos ->
+  defined (find_m h n pos) /\ defined (rfind_m h n pos) /\
+  defined (find_first_of_m h n pos) /\ defined (find_first_not_of_m h n pos) /\
+  defined (find_last_of_m h n pos) /\ defined (find_last_not_of_m h n pos) /\
+  defined (contains_m h n)) /\
+  ((* reads_inside_compare *) forall ck a b pos1 count1 pos2 count2, view_ok a -> view_ok b ->
+  pos_ok pos1 -> pos_ok count1 -> pos_ok pos2 -> pos_ok count2 ->
+  defined (compare_m ck a b) /\ defined (compare3_m ck a pos1 count1 b) /\
+  defined (compare5_m ck a pos1 count1 b pos2 count2) /\
+  defined (op_eq_m ck a b) /\ defined (op_ne_m ck a b) /\ defined (op_lt_m ck a b) /\
+  defined (op_le_m ck a b) /\ defined (op_gt_m ck a b) /\ defined (op_ge_m ck a b) /\
+  defined (substr_m a pos1 count1) /\ defined (copy_m a count1 pos1) /\
+  defined (remove_prefix_m a pos1) /\ defined (remove_suffix_m a pos1)) /\
+  ((* frame *) forall h h' n n' pos,
+  view_ok h -> view_ok h' -> view_ok n -> view_ok n' -> pos_ok pos ->
+  vchars h = vchars h' -> vchars n = vchars n' ->
+  find_m h n pos = find_m h' n' pos /\ rfind_m h n pos = rfind_m h' n' pos /\
+  find_first_of_m h n pos = find_first_of_m h' n' pos /\
+  find_first_not_of_m h n pos = find_first_not_of_m h' n' pos /\
+  find_last_of_m h n pos = find_last_of_m h' n' pos /\
+  find_last_not_of_m h n pos = find_last_not_of_m h' n' pos).
+Proof. exact (conj rd_outside (conj reads_inside_searches (conj reads_inside_compare frame_find))). Qed.
+Print Assumptions C08_reads_inside.
+
+(** * The executable spec functions say what [string.view.find] / [string.view.ops] say
+      ([occurs_at h n x]: x + |n| <= |h| and h[x+I] = n[I] for all I) *)
+(* spec *)
+Theorem C08_spec_wording :
+  ((* spec_find *) forall h n pos, 0 <= pos ->
+  (find_s h n pos = s_npos /\ forall x, pos <= x -> ~ occurs_at h n x) \/
+  (pos <= find_s h n pos /\ occurs_at h n (find_s h n pos) /\
+   forall x, pos <= x < find_s h n pos -> ~ occurs_at h n x)) /\
+  ((* spec_rfind *) forall h n pos, 0 <= pos ->
+  (rfind_s h n pos = s_npos /\ forall x, 0 <= x <= pos -> ~ occurs_at h n x) \/
+  (0 <= rfind_s h n pos <= pos /\ occurs_at h n (rfind_s h n pos) /\
+   forall x, rfind_s h n pos < x <= pos -> ~ occurs_at h n x)) /\
+  ((* spec_find_first_of *) forall h n pos, 0 <= pos ->
+  let r := find_first_of_s h n pos in
+  (r = s_npos /\ forall x, pos <= x < len h -> mem (zth h x) n = false) \/
+  (pos <= r < len h /\ mem (zth h r) n = true /\ forall x, pos <= x < r -> mem (zth h x) n = false)) /\
+  ((* spec_find_first_not_of *) forall h n pos, 0 <= pos ->
+  let r := find_first_not_of_s h n pos in
+  (r = s_npos /\ forall x, pos <= x < len h -> mem (zth h x) n = true) \/
+  (pos <= r < len h /\ mem (zth h r) n = false /\ forall x, pos <= x < r -> mem (zth h x) n = true)) /\
+  ((* spec_find_last_of *) forall h n pos, 0 <= pos ->
+  let r := find_last_of_s h n pos in
+  (r = s_npos /\ forall x, 0 <= x <= pos -> x < len h -> mem (zth h x) n = false) \/
+  (0 <= r <= pos /\ r < len h /\ mem (zth h r) n = true /\
+   forall x, r < x <= pos -> x < len h -> mem (zth h x) n = false)) /\
+  ((* spec_find_last_not_of *) forall h n pos, 0 <= pos ->
+  let r := find_last_not_of_s h n pos in
+  (r = s_npos /\ forall x, 0 <= x <= pos -> x < len h -> mem (zth h x) n = true) \/
+  (0 <= r <= pos /\ r < len h /\ mem (zth h r) n = false /\
+   forall x, r < x <= pos -> x < len h -> mem (zth h x) n = true)) /\
+  ((* spec_compare *) forall t a b,
+  compare_s t a b =
+  match first_idx (differ t a b) 0 (Z.to_nat (Z.min (len a) (len b))) with
+  | Some i => if char_lt t (zth a i) (zth b i) then -1 else 1
+  | None => tie (len a) (len b)
+  end).
+Proof. exact (conj find_s_char (conj rfind_s_char (conj find_first_of_s_char (conj find_first_not_of_s_char (conj find_last_of_s_char (conj find_last_not_of_s_char compare_s_idx)))))). Qed.
+Print Assumptions C08_spec_wording.
+
+(** * Non-vacuity: the hypotheses are satisfiable, on a view strictly inside a larger buffer
+      whose neighbouring characters would give a different answer (DESIGN Appendix A row 8) *)
+Example C08_nonvacuous :
+  let h := mkview [97; 98; 97; 98] 0 3 in   (* "aba" inside the buffer "abab" *)
+  let n := mkview [97; 98] 0 2 in           (* "ab" *)
+  view_ok h /\ view_ok n /\ pos_ok 1 /\ pos_ok npos /\ cstr_ok (mkview [97; 0] 0 2) /\
+  chars_ok TChar (vchars h) /\
+  find_m h n 1 = Ok npos /\ find_s (vchars h) (vchars n) 1 = npos /\ rfind_m h n npos = Ok 0.
+Proof.
+  cbv zeta. unfold view_ok, pos_ok, cstr_ok, view_ok, chars_ok, npos, len. cbn [vbuf voff vlen length].
+  repeat split; try lia; try reflexivity.
+  - exists 1. split; [lia|reflexivity].
+  - repeat constructor; cbn; lia.
+Qed.
